@@ -549,6 +549,7 @@ class CompleteStageHandler(
                 # Atomic: store stage + cancel + complete workflow
                 with self.repository.transaction(self.queue) as txn:
                     txn.store_stage(stage)
+                    self._record_completion_event(stage, WorkflowStatus.TERMINAL)
                     txn.push_message(
                         CancelStage(
                             execution_type=message.execution_type,
